@@ -99,7 +99,8 @@ class Mut:
     def cpp_exe(self, flavor: str = "plain") -> str:
         with self._lock:
             if flavor not in self._exe:
-                self._exe[flavor] = cxx.build(self.cpp_dir, flavor)
+                # "valgrind" is the NDEBUG build run under valgrind memcheck (cxx.run_driver adds the wrapper)
+                self._exe[flavor] = cxx.build(self.cpp_dir, "ndebug" if flavor == "valgrind" else flavor)
             return self._exe[flavor]
 
     def cpp_copy(self, proto: str, infmt: str, outfmt: str, data: bytes, flavor: str = "plain",
@@ -129,7 +130,7 @@ class Mut:
             args += ["--version", version]
         if skip_close:
             args += ["--skip-close"]
-        return cxx.run_driver(self.cpp_exe(flavor), args, data, flavor, cpu_s=cpu_s)
+        return cxx.run_driver(self.cpp_exe(flavor), args, data, flavor, cpu_s=(max(cpu_s, 120) if flavor == "valgrind" else cpu_s))
 
     # ------------------------------------------------------------------ Python
     def py(self) -> "PyWorker":
